@@ -14,6 +14,7 @@ VERIF = os.path.dirname(os.path.dirname(os.path.abspath(__file__)))
 REPO = os.environ.get("VERIF_REPO", "/repo")
 CACHE = os.environ.get("VERIF_CACHE", os.path.join(VERIF, ".cache"))
 DRIVER = os.path.join(VERIF, "mirfacts", "target", "release", "mirfacts")
+OUT = os.environ.get("VERIF_OUT", VERIF)   # where evidence/ and reports/ are written (variant runs redirect it)
 
 CONFIGS = {
     "default": [],
@@ -228,7 +229,7 @@ def finish(prop, tier, results, t0, level_text, trusted, seed=0):
             else:
                 merged.violations[k] = v
     openk, fixed = load_known()
-    repdir = os.path.join(VERIF, "reports", prop)
+    repdir = os.path.join(OUT, "reports", prop)
     os.makedirs(repdir, exist_ok=True)
     unknown = []
     known = []
@@ -289,8 +290,8 @@ def finish(prop, tier, results, t0, level_text, trusted, seed=0):
         "wall_s": round(time.time() - t0, 3),
         "violations": len(unknown),
     }
-    os.makedirs(os.path.join(VERIF, "evidence"), exist_ok=True)
-    with open(os.path.join(VERIF, "evidence", prop + ".json"), "w") as f:
+    os.makedirs(os.path.join(OUT, "evidence"), exist_ok=True)
+    with open(os.path.join(OUT, "evidence", prop + ".json"), "w") as f:
         json.dump(ev, f, indent=1, default=str)
     print("%s %s: %d rule instances over %d rules, %d violation(s), %d known finding(s), %.1fs" % (
         prop, tier, len(merged.instances), obligations, len(unknown), len(known), time.time() - t0))
